@@ -60,12 +60,13 @@ PROPS = {
                      "'the target is a function of the set of live proposals'"],
     ),
     "C04": dict(
-        modules=PM_MODULES,
+        modules=PM_MODULES + ["pm_actor"],
         contracts=PM_BOUNDS + [
             f"{MAT}._calc_target_power#c04",
             f"{MAT}.get_status",
             f"{MAT}.get_status#c04",
             f"{PM}._base_classes:_Report.adjust_to_bounds",
+            "frequenz.sdk.timeseries.battery_pool._battery_pool:BatteryPool.propose_power",
         ],
         lemmas=["proposal_eq_is_key_equality", "proposal_hash_respects_eq", "proposal_lt_strict_total_order_on_keys"],
         bounded=[],
@@ -90,6 +91,7 @@ PROPS = {
             f"{PM}._power_managing_actor:PowerManagingActor._calculate_target_power",
             f"{PM}._power_managing_actor:PowerManagingActor._send_updated_target_power",
             f"{PM}._power_managing_actor:PowerManagingActor._run",
+            f"{PM}._power_managing_actor:PowerManagingActor._bounds_tracker",
         ],
         lemmas=["proposal_eq_is_key_equality", "proposal_hash_respects_eq", "proposal_lt_strict_total_order_on_keys"],
         bounded=[],
@@ -104,8 +106,8 @@ PROPS = {
                      "events in any order and number, one component group and one priority as structural bound) to send "
                      "requests only through _send_updated_target_power, which recomputes from the current state; the expiry "
                      "timer's drop_old_proposals is proved to keep buckets and stored targets",
-                     "not under contract: _add_system_bounds_tracker / _bounds_tracker (bounds updates arrive through a task "
-                     "that calls _send_updated_target_power) and _send_reports"],
+                     "_bounds_tracker is proved to cache every received bounds message and to recompute once; not under contract: "
+                     "_add_system_bounds_tracker (which pool's bounds stream is subscribed) and _send_reports"],
     ),
     "C13": dict(
         modules=["fe_steps", "fe_evaluator"],
@@ -198,7 +200,8 @@ PROPS = {
                    "frequenz.sdk.timeseries.battery_pool._battery_pool:BatteryPool.capacity"],
         lemmas=["scaled_soc_is_monotone_and_bounded", "usable_capacity_scales_linearly",
                 "pool_soc_is_monotone_in_every_battery_soc"],
-        bounded=[],
+        bounded=[dict(kind="native_script", name="a NaN metric (any NaN object) is dropped by the real LatestBatteryMetricsFetcher and never "
+                                                 "reaches the pool aggregate", module="native.explore_pool_fetcher")],
         level="proof",
         explanation="Loop invariants over any set of batteries (iterated in arbitrary order): the running sums equal the ghost "
                     "recurrences written from the documented formulas (usable capacity = capacity*(hi-lo)/100; SoC rescaled to "
@@ -210,7 +213,8 @@ PROPS = {
                      "version went `unknown`: nonlinear arithmetic under quantifiers)",
                      "SendOnUpdate.update_working_batteries under contract for the working set and the recalculation request "
                      "(cache and battery-inverter map are scripted collaborators: which cache entries are evicted is not stated)",
-                     "not under contract: LatestMetricsFetcher.fetch_next (NaN metrics dropped), SendOnUpdate._update_and_notify"],
+                     "LatestMetricsFetcher.fetch_next (NaN metrics dropped) only by a bounded native run; SendOnUpdate._update_and_notify "
+                     "not under contract"],
     ),
     "C17": dict(
         modules=["pd_bounds"],
